@@ -17,7 +17,9 @@ impl<S: State> Folded<S> {
         let total_count = spectrum
             .shape()
             .iter()
-            .sum::<usize>()
+            // The sum of the axis lengths can only overflow for a spectrum without elements (where
+            // the count is not used), but it must not panic there either
+            .fold(0usize, |sum, &n| sum.saturating_add(n))
             .saturating_sub(spectrum.shape().len());
 
         // In general, this point divides the folding line. Since we are folding onto the "upper"
